@@ -29,7 +29,7 @@ pub fn def() -> CheckDef {
         runs_quick: 600_000,
         runs_thorough: 20_000_000,
         rule: "two simulated parties with independently drawn call schedules and backend-width policies, connected by a fault-free channel: encrypt on A through every public way of driving the mode (single/multi-block forms, driver scripts, padded one-shots with Pkcs7/Iso7816/NoPadding in place, b2b and _vec, AsyncStreamCipher one-shots, byte-stream wrappers and cores with arbitrary chunking, buffered CFB, cts one-shots), decrypt on B. distinct = distinct (mode, block size, cipher, both policies, both schedules' form/size sequences, closing operation); non-trivial = message of >= 1 byte",
-        required_probes: &["async_partial_tail", "different_widths", "padded_bs255", "zero_length_message", "padded_vec", "cts", "stream_core_side", "buffered"],
+        required_probes: &["async_partial_tail", "different_widths", "padded_bs255", "zero_length_message", "padded_vec", "cts", "stream_core_side", "buffered", "start_by_consuming"],
         r#gen,
         exec,
         components: "real code: all nine crates and cipher's front ends on both parties; stub: block cipher in most runs, real AES-128/Magma/Kuznyechik/BelT in the rest; channel: harness byte buffer, fault-free in this check; no reference model",
@@ -92,6 +92,7 @@ fn r#gen(rng: &mut Rng, thorough: bool) -> Scn {
                 s.set_num("start", rng.below(4 * bs) as u128);
             }
             s.set_num("bcore", rng.chance(1, 4) as u128);
+            s.set_num("bconsume", rng.chance(1, 2) as u128);
             for who in 0..2u8 {
                 for _ in 0..1 + rng.usize(maxp) {
                     s.ops.push(Op::new("apply").who(who).n(rng.nbytes(4 * bs, bs)).via(rng.below(N_APPLY_FORMS.max(N_KS_VIA) as u64) as u8).p(rng.next() as u128));
@@ -286,7 +287,15 @@ fn exec(scn: &Scn, ctx: &mut Ctx) -> Verdict {
                     Ok(o) => o,
                     Err(_) => invalid!("stream"),
                 };
-                if start != 0 && b.seek(2, start).is_err() {
+                if start != 0 && scn.num("bconsume") == 1 && start <= 1 << 16 {
+                    // another route to the same offset: generate and discard the keystream before it
+                    let z = vec![0u8; start as usize];
+                    let mut o = vec![0u8; start as usize];
+                    if b.apply(0, &z, &mut o).is_err() {
+                        violation!("apply_err", "consuming {} bytes failed on the decrypting side", start);
+                    }
+                    ctx.probe("start_by_consuming");
+                } else if start != 0 && b.seek(2, start).is_err() {
                     violation!("seek_err", "seek({}) failed on the decrypting side", start);
                 }
                 let mut i = 0;
